@@ -5,6 +5,8 @@ spec/Threads.tla (Model at the granularity of the code's synchronisation points;
 interleavings of 2 (3) threads, checks Model => Contract, emits every edge),
 harness/thr_driver.cpp (real threads under a deterministic cooperative scheduler driven through
 the custom-lock seam, the RLBOX_VERIF_EVENT hook and yields in guest code / callbacks),
+harness/lock_driver.cpp (the library's OWN lock macros: a conflicting try-lock from a helper thread
+must fail at every reported access to the live list),
 spec/Trace_Threads.tla (TLC folds the Contract over the scheduler's step log)."""
 import os
 import random
@@ -91,6 +93,18 @@ def run(tier):
             vp.log("%s rc=%d" % (nm, pe.returncode))
             if p.returncode in (0, 7):
                 p = pe
+    # the library's own lock macros (no scheduler): is the list lock really held at every list access?
+    nprobe = 0
+    for nm, flags in (("lock_driver", []), ("lock_driver_noop", ["-DBK_NOOP"])):
+        d = vp.build(nm, ["lock_driver.cpp"], flags)
+        tl = os.path.join(wd, nm + ".ndjson")
+        pl = vp.run(["timeout", "120", d, tl], timeout=200)
+        lev = vp.read_ndjson(tl)
+        if pl.returncode != 0 or len([e for e in lev if e["e"] == "lockprobe"]) < 18:
+            raise vp.Broken("%s rc=%d, %d events: %s" % (nm, pl.returncode, len(lev), pl.stderr[-300:]))
+        nprobe += len(lev)
+        events += lev
+    chk.cov["lock_probes"] = nprobe
     vp.write_ndjson(tpath, events)
     r = vp.tlc(os.path.join(vp.SPEC, "Trace_Threads.tla"), os.path.join(vp.SPEC, "Trace_Threads.cfg"), workers=1,
                timeout=1100, env={"TRACE": tpath}, xmx="10g")
